@@ -23,7 +23,7 @@ for part in re.split(r';',m['detection']['caught_by']):
     mm=re.match(r'\s*(C\d+)',part)
     if mm and mm.group(1) not in ids: ids.append(mm.group(1))
 print(' '.join(ids[:1]))")
-  git -C /repo apply seeded/$sd/patch.diff 2>/dev/null || { echo "| $sd | - | patch does not apply | |" >> $OUT; continue; }
+  git -C /repo apply /verif/seeded/$sd/patch.diff 2>/dev/null || { echo "| $sd | - | patch does not apply | |" >> $OUT; continue; }
   for id in $ids; do
     out=$(./check $id --tier quick 2>&1); rc=$?
     sigs=$(echo "$out" | grep "signature:" | sed 's/.*signature: //' | sort -u | head -4 | paste -sd';' | cut -c1-160)
